@@ -65,6 +65,7 @@ type lockCfg struct {
 	StepOpts       func(*world.StepOpts)
 	Step           time.Duration
 	JumpTime       bool // occasional large block-time steps
+	TimeEdges      bool // block times placed 1 s / 1 ns before, exactly at and 1 ns / 1 s after the next unlock maturity or jail end
 	TargetPunished bool // lock/unlock requests prefer jailed and tombstoned validators
 	EvidenceAges   bool // evidence height and time ages are drawn independently around the limits
 	HugeWeights    bool // token weights up to 2^62 (total voting power must still stay acceptable)
@@ -496,6 +497,29 @@ func (h *lockHist) gen() *blockOps {
 	}
 	if h.r.Intn(8) == 0 && h.cfg.JumpTime {
 		o.Dt = time.Nanosecond // (almost) equal timestamps
+	}
+	if h.cfg.TimeEdges && h.post != nil && h.r.Intn(4) == 0 {
+		now := h.ch.Now
+		var edges []time.Time
+		for _, q := range h.post.Locking.UnlockQueue {
+			if q.Timestamp.After(now) {
+				edges = append(edges, q.Timestamp)
+				break // the queue is exported in maturity order: the earliest one
+			}
+		}
+		for i := range h.post.Locking.Validators {
+			if v := &h.post.Locking.Validators[i]; v.Status == lockingtypes.Downgrade && v.JailedUntil.After(now) {
+				edges = append(edges, v.JailedUntil)
+			}
+		}
+		if len(edges) > 0 {
+			e := edges[h.r.Intn(len(edges))]
+			delta := []time.Duration{-time.Second, -time.Nanosecond, 0, time.Nanosecond, time.Second}[h.r.Intn(5)]
+			if d := e.Add(delta).Sub(now); d > 0 && d < 80*h.ch.Step0 {
+				o.Dt = d
+				o.Desc = append(o.Desc, fmt.Sprintf("time-edge %s%+d", e.Format("15:04:05.000000000"), delta))
+			}
+		}
 	}
 	return o
 }
